@@ -154,10 +154,35 @@ func c20(e *Env) {
 			cc.yamlExtra = "peers:\n  - rpc-address: 10.1.1.2\n    data-center: dc2\n" // peers without this proxy's rpc-address
 			cc.refuse = true
 		case 6:
+			// tokens for this proxy: every *other* peer needs tokens too, whether or not the list
+			// also has an entry for this proxy itself (with or without tokens, at any position)
 			cc.route = 2
 			cc.opts["rpc-address"] = "10.1.1.1"
-			cc.yamlExtra = "tokens: ['0']\npeers:\n  - rpc-address: 10.1.1.2\n" // tokens for this proxy but not for every peer
-			cc.refuse = true
+			k := idx / 9
+			nOther := 1 + k%3
+			self := (k / 3) % 3 // 0 no own entry, 1 own entry without tokens, 2 own entry with tokens
+			selfPos := (k / 9) % (nOther + 1)
+			lack := (k / 36) % (1 << nOther) // which other peers lack tokens
+			if k%5 == 0 {
+				lack = 1 << ((k / 5) % nOther) // exactly one
+			}
+			var ents []string
+			for i := 0; i < nOther; i++ {
+				e := fmt.Sprintf("  - rpc-address: 10.1.1.%d\n", i+2)
+				if lack&(1<<i) == 0 {
+					e += fmt.Sprintf("    tokens: ['%d']\n", 100*(i+1))
+				}
+				ents = append(ents, e)
+			}
+			if self > 0 {
+				e := "  - rpc-address: 10.1.1.1\n"
+				if self == 2 {
+					e += "    tokens: ['0']\n"
+				}
+				ents = append(ents[:selfPos], append([]string{e}, ents[selfPos:]...)...)
+			}
+			cc.yamlExtra = "tokens: ['0']\npeers:\n" + strings.Join(ents, "")
+			cc.refuse = lack != 0
 		case 7:
 			cc.route = 2
 			cc.opts["rpc-address"] = "10.1.1.1"
